@@ -216,6 +216,68 @@ def run_convert(case):
     return out
 
 
+def tempo_points(t):
+    """a tempo as an envelope: DirectTempo b = one point (0, b, 0)"""
+    if isinstance(t, cp.FlexTempo):
+        return snap(t)
+    return ["E", [0, sf(t.bpm), sf(0)]]
+
+
+def run_jointempo(case):
+    kind, da, db = case[1], int(case[3]), int(case[5])
+    ta, tb = build_tempo(case[2]), build_tempo(case[4])
+    tb_before = tempo_points(tb)
+    ta_before = tempo_points(ta)
+    flags = []
+    if kind == "add":
+        a = S_([C_(da / TICK)], tempo=ta)
+        b = S_([C_(db / TICK)], tempo=tb)
+        r = a + b
+        rt = r.tempo
+        if tempo_points(a.tempo) != ta_before:
+            flags.append("first-operand-tempo-changed")
+        if tempo_points(b.tempo) != tb_before:
+            flags.append("second-operand-tempo-changed")
+        if [ticks(x.duration) for x in r] != [da, db] or [ticks(x.duration) for x in a] != [da] or [ticks(x.duration) for x in b] != [db]:
+            flags.append("content-wrong")
+    elif kind == "topindex":
+        # the simultaneities themselves carry the tempi (known finding F7)
+        a = P_([S_([C_(da / TICK)], tag="v")], tempo=ta)
+        b = P_([S_([C_(db / TICK)], tag="v")], tempo=tb)
+        a.concatenate_by_index(b)
+        rt = a.tempo
+    else:
+        a = P_([S_([C_(da / TICK)], tempo=ta, tag="v")])
+        b = P_([S_([C_(db / TICK)], tempo=tb, tag="v")])
+        if kind == "index":
+            a.concatenate_by_index(b)
+        else:
+            a.concatenate_by_tag(b)
+        rt = a[0].tempo
+        if tempo_points(b[0].tempo) != tb_before:
+            flags.append("second-operand-tempo-changed")
+        if [ticks(x.duration) for x in a[0]] != [da, db] or [ticks(x.duration) for x in b[0]] != [db]:
+            flags.append("content-wrong")
+    out = ["ok", tempo_points(rt)]
+    # the result's tempo against the operands' tempi (fresh copies), away from the joint
+    oa, ob = build_tempo(case[2]), build_tempo(case[4])
+    fa = cp.FlexTempo.from_parameter(oa)
+    fb = cp.FlexTempo.from_parameter(ob)
+    frt = cp.FlexTempo.from_parameter(rt)
+    rows = []
+    for i in range(13):
+        x = da * i // 12
+        if x < da:
+            rows.append([x, sf(frt.value_at(x / TICK)), sf(fa.value_at(x / TICK))])
+    for i in range(13):
+        x = da + db * i // 12 + (1 if i == 0 else 0)
+        rows.append([x, sf(frt.value_at(x / TICK)), sf(fb.value_at((x - da) / TICK))])
+    out.append(["grid"] + rows)
+    if flags:
+        out.append(["flags"] + flags)
+    return out
+
+
 def run_metrize(case):
     src = build_ttree(case[1])
     before = full_snap(src)
@@ -381,6 +443,11 @@ def run(case):
         if k == "convert1":
             return ["ok", r[1], r[-1]]
         return r
+    if k == "jointempo":
+        try:
+            return run_jointempo(case)
+        except Exception as exc:  # noqa
+            return err(exc)
     if k == "metrize":
         try:
             return run_metrize(case)
